@@ -270,7 +270,14 @@ pub fn gen_func(rng: &mut Rng, ids: &[u64], max_degree: usize) -> FuncSpec {
         }
         2 => {
             let n = 1 + rng.usize(4);
-            let entries = (0..n).map(|_| (pick(rng), pick(rng), coef(rng, true))).collect();
+            // the schema forbids two entries at the same (row, column) location; (i,j) next to (j,i) is fine
+            let mut entries: Vec<(u64, u64, F)> = vec![];
+            for _ in 0..n {
+                let e = (pick(rng), pick(rng), coef(rng, true));
+                if !entries.iter().any(|o| o.0 == e.0 && o.1 == e.1) {
+                    entries.push(e);
+                }
+            }
             let linear = if rng.chance(1, 3) {
                 None
             } else {
